@@ -250,8 +250,12 @@ def main(argv=None):
         return 1
 
     # 1. proofs
-    gate = dict(build_ok=True, props_ok=True, forbidden=[], obligations=0, discharged=0, theorems=[], assumptions={}) \
-        if a.no_gate else proof_gate(a.prop)
+    if a.no_gate:
+        r = subprocess.run(["bash", os.path.join(ROOT, "tools", "build.sh")], capture_output=True, text=True)
+        if "build ok" not in r.stdout: print(r.stdout[-2000:])
+        gate = dict(build_ok="build ok" in r.stdout, props_ok=True, forbidden=[], obligations=0, discharged=0, theorems=[], assumptions={})
+    else:
+        gate = proof_gate(a.prop)
     proof_broken = not (gate["build_ok"] and gate["props_ok"] and not gate["forbidden"])
 
     # 2. cases
